@@ -201,7 +201,9 @@ type vLabOutcome struct {
 	ZeroGapOp  bool
 	LaterPay   bool
 	TwoSettle  bool
-	Final      string
+	// DepositSettles: a deposit settled the account (a variant the statement allows)
+	DepositSettles bool
+	Final          string
 }
 
 // run executes ops on a cache branch next to the model and compares after
@@ -265,7 +267,129 @@ func (l *vLab) run(ops []vLabOp) vLabOutcome {
 				out.TwoSettle = true
 			}
 		}
-		model.apply(op, h)
+		// The statement leaves open which actions trigger a settlement: a deposit
+		// may leave the account unsettled (as the code at hand does), or credit
+		// and then settle, or settle first and refuse the deposit when that
+		// finds the account overdrawn.  All three are tried; the first one the
+		// keeper's records agree with is adopted as the model's next state.
+		var cands []*vRefAcct
+		{
+			a := model
+			a.apply(op, h)
+			cands = append(cands, &a)
+			if op.Kind == "deposit" && model.exists && model.state == 1 {
+				b := model
+				b.bal += op.Amt
+				b.deposits += op.Amt
+				b.settle(h)
+				c := model
+				if !c.settle(h) {
+					c.bal += op.Amt
+					c.deposits += op.Amt
+				}
+				cands = append(cands, &b, &c)
+			}
+		}
+		trig := op.Kind
+		if op.DH == 0 {
+			trig += ":dh0"
+		}
+		compare := func(m *vRefAcct) []vLabViolation {
+			var vv []vLabViolation
+			bad := func(rule, trigger, detail string) { vv = append(vv, vLabViolation{rule, trigger, detail}) }
+			acct, aerr := k.GetAccount(ctx, l.id)
+			if m.exists != (aerr == nil) {
+				bad("account-exists", trig, fmt.Sprintf("after %s: model exists=%v, keeper err=%v", vOpsString(ops[:idx+1]), m.exists, aerr))
+				return vv
+			}
+			if !m.exists {
+				return vv
+			}
+			if int(acct.State) != m.state {
+				bad("account-state", trig, fmt.Sprintf("after %s: account is %s, the statement implies %s", vOpsString(ops[:idx+1]), vAcctState(acct.State), vAcctState(etypes.Account_State(m.state))))
+			}
+			if !acct.Balance.Amount.Equal(sdk.NewInt(m.bal)) {
+				bad("account-balance", trig, fmt.Sprintf("after %s: account balance %s, expected %d", vOpsString(ops[:idx+1]), acct.Balance.Amount, m.bal))
+			}
+			if !acct.Transferred.Amount.Equal(sdk.NewInt(m.trans)) {
+				bad("account-transferred", trig, fmt.Sprintf("after %s: transferred %s, expected %d", vOpsString(ops[:idx+1]), acct.Transferred.Amount, m.trans))
+			}
+			sumCred := sdk.ZeroInt()
+			sumBal := acct.Balance.Amount
+			for i := range m.pays {
+				mp := &m.pays[i]
+				p, perr := k.GetPayment(ctx, l.id, fmt.Sprintf("p%d", i))
+				if mp.exists != (perr == nil) {
+					bad("payment-exists", trig, fmt.Sprintf("after %s: payment p%d model exists=%v keeper err=%v", vOpsString(ops[:idx+1]), i, mp.exists, perr))
+					continue
+				}
+				if !mp.exists {
+					continue
+				}
+				cred := p.Balance.Amount.Add(p.Withdrawn.Amount)
+				sumCred = sumCred.Add(cred)
+				sumBal = sumBal.Add(p.Balance.Amount)
+				if int(p.State) != mp.state {
+					bad("payment-state", trig, fmt.Sprintf("after %s: payment p%d is %s, the statement implies %s", vOpsString(ops[:idx+1]), i, vPayState(p.State), vPayState(etypes.Payment_State(mp.state))))
+				}
+				if mp.bounded {
+					if cred.LT(sdk.NewInt(mp.lo)) || cred.GT(sdk.NewInt(mp.hi)) {
+						bad("overdraft-split-bounds", trig, fmt.Sprintf("after %s: payment p%d (rate %d) credited %s, admissible [%d,%d]", vOpsString(ops[:idx+1]), i, mp.rate, cred, mp.lo, mp.hi))
+					}
+					if !p.Balance.IsZero() {
+						bad("overdrawn-paid-out", trig, fmt.Sprintf("after %s: overdrawn payment p%d keeps balance %s", vOpsString(ops[:idx+1]), i, p.Balance))
+					}
+					// adopt the implementation's admissible choice
+					mp.wd, mp.bal = cred.Int64(), 0
+					mp.lo, mp.hi = mp.wd, mp.wd
+				} else {
+					if !p.Balance.Amount.Equal(sdk.NewInt(mp.bal)) || !p.Withdrawn.Amount.Equal(sdk.NewInt(mp.wd)) {
+						bad("payment-accrual-exact", trig, fmt.Sprintf("after %s: payment p%d (rate %d, created at +%d) has balance %s withdrawn %s, expected %d / %d",
+							vOpsString(ops[:idx+1]), i, mp.rate, mp.createdAt-l.c.height, p.Balance.Amount, p.Withdrawn.Amount, mp.bal, mp.wd))
+					}
+				}
+				// never more than rate x blocks-open
+				end := h
+				if mp.state != 1 {
+					end = mp.endedAt
+				}
+				if cred.GT(sdk.NewInt(mp.rate * (end - mp.createdAt))) {
+					bad("payee-upper-bound", trig, fmt.Sprintf("after %s: payment p%d credited %s > rate %d x %d blocks open", vOpsString(ops[:idx+1]), i, cred, mp.rate, end-mp.createdAt))
+				}
+				got := bank.GetBalance(ctx, l.payees[i].Addr, vDenom).Amount.Sub(payeeStart[i])
+				if !got.Equal(p.Withdrawn.Amount) {
+					bad("payee-bank-equals-withdrawn", trig, fmt.Sprintf("after %s: payee %d received %s, withdrawn field says %s", vOpsString(ops[:idx+1]), i, got, p.Withdrawn.Amount))
+				}
+			}
+			if !sumCred.Equal(acct.Transferred.Amount) {
+				bad("transferred-equals-credited", trig, fmt.Sprintf("after %s: transferred %s != sum credited %s", vOpsString(ops[:idx+1]), acct.Transferred.Amount, sumCred))
+			}
+			if acct.Transferred.Amount.GT(sdk.NewInt(m.deposits)) {
+				bad("never-more-than-deposited", trig, fmt.Sprintf("after %s: transferred %s > deposited %d", vOpsString(ops[:idx+1]), acct.Transferred.Amount, m.deposits))
+			}
+			ownerDelta := bank.GetBalance(ctx, l.owner.Addr, vDenom).Amount.Sub(ownerStart)
+			if !ownerDelta.Equal(sdk.NewInt(m.refunded - m.deposits)) {
+				bad("owner-bank", trig, fmt.Sprintf("after %s: owner's bank delta %s, expected %d", vOpsString(ops[:idx+1]), ownerDelta, m.refunded-m.deposits))
+			}
+			mod := bank.GetBalance(ctx, l.c.escrowAddr, vDenom).Amount.Sub(moduleStart)
+			if !mod.Equal(sumBal) {
+				bad("module-equals-recorded", trig, fmt.Sprintf("after %s: module holds %s, records sum to %s", vOpsString(ops[:idx+1]), mod, sumBal))
+			}
+
+			return vv
+		}
+		chosen := cands[0]
+		viol := compare(chosen)
+		for ci := 1; ci < len(cands) && len(viol) > 0; ci++ {
+			if v2 := compare(cands[ci]); len(v2) == 0 {
+				chosen, viol = cands[ci], nil
+				out.DepositSettles = true
+			}
+		}
+		for _, v := range viol {
+			bad(v.Rule, v.Trigger, v.Detail)
+		}
+		model = *chosen
 		if preState == 1 && model.state == 3 {
 			out.Overdraft = true
 			n := 0
@@ -285,89 +409,6 @@ func (l *vLab) run(ops []vLabOp) vLabOutcome {
 			}
 		}
 
-		// ---- compare
-		trig := op.Kind
-		if op.DH == 0 {
-			trig += ":dh0"
-		}
-		acct, aerr := k.GetAccount(ctx, l.id)
-		if model.exists != (aerr == nil) {
-			bad("account-exists", trig, fmt.Sprintf("after %s: model exists=%v, keeper err=%v", vOpsString(ops[:idx+1]), model.exists, aerr))
-			continue
-		}
-		if !model.exists {
-			continue
-		}
-		if int(acct.State) != model.state {
-			bad("account-state", trig, fmt.Sprintf("after %s: account is %s, the statement implies %s", vOpsString(ops[:idx+1]), vAcctState(acct.State), vAcctState(etypes.Account_State(model.state))))
-		}
-		if !acct.Balance.Amount.Equal(sdk.NewInt(model.bal)) {
-			bad("account-balance", trig, fmt.Sprintf("after %s: account balance %s, expected %d", vOpsString(ops[:idx+1]), acct.Balance.Amount, model.bal))
-		}
-		if !acct.Transferred.Amount.Equal(sdk.NewInt(model.trans)) {
-			bad("account-transferred", trig, fmt.Sprintf("after %s: transferred %s, expected %d", vOpsString(ops[:idx+1]), acct.Transferred.Amount, model.trans))
-		}
-		sumCred := sdk.ZeroInt()
-		sumBal := acct.Balance.Amount
-		for i := range model.pays {
-			mp := &model.pays[i]
-			p, perr := k.GetPayment(ctx, l.id, fmt.Sprintf("p%d", i))
-			if mp.exists != (perr == nil) {
-				bad("payment-exists", trig, fmt.Sprintf("after %s: payment p%d model exists=%v keeper err=%v", vOpsString(ops[:idx+1]), i, mp.exists, perr))
-				continue
-			}
-			if !mp.exists {
-				continue
-			}
-			cred := p.Balance.Amount.Add(p.Withdrawn.Amount)
-			sumCred = sumCred.Add(cred)
-			sumBal = sumBal.Add(p.Balance.Amount)
-			if int(p.State) != mp.state {
-				bad("payment-state", trig, fmt.Sprintf("after %s: payment p%d is %s, the statement implies %s", vOpsString(ops[:idx+1]), i, vPayState(p.State), vPayState(etypes.Payment_State(mp.state))))
-			}
-			if mp.bounded {
-				if cred.LT(sdk.NewInt(mp.lo)) || cred.GT(sdk.NewInt(mp.hi)) {
-					bad("overdraft-split-bounds", trig, fmt.Sprintf("after %s: payment p%d (rate %d) credited %s, admissible [%d,%d]", vOpsString(ops[:idx+1]), i, mp.rate, cred, mp.lo, mp.hi))
-				}
-				if !p.Balance.IsZero() {
-					bad("overdrawn-paid-out", trig, fmt.Sprintf("after %s: overdrawn payment p%d keeps balance %s", vOpsString(ops[:idx+1]), i, p.Balance))
-				}
-				// adopt the implementation's admissible choice
-				mp.wd, mp.bal = cred.Int64(), 0
-				mp.lo, mp.hi = mp.wd, mp.wd
-			} else {
-				if !p.Balance.Amount.Equal(sdk.NewInt(mp.bal)) || !p.Withdrawn.Amount.Equal(sdk.NewInt(mp.wd)) {
-					bad("payment-accrual-exact", trig, fmt.Sprintf("after %s: payment p%d (rate %d, created at +%d) has balance %s withdrawn %s, expected %d / %d",
-						vOpsString(ops[:idx+1]), i, mp.rate, mp.createdAt-l.c.height, p.Balance.Amount, p.Withdrawn.Amount, mp.bal, mp.wd))
-				}
-			}
-			// never more than rate x blocks-open
-			end := h
-			if mp.state != 1 {
-				end = mp.endedAt
-			}
-			if cred.GT(sdk.NewInt(mp.rate * (end - mp.createdAt))) {
-				bad("payee-upper-bound", trig, fmt.Sprintf("after %s: payment p%d credited %s > rate %d x %d blocks open", vOpsString(ops[:idx+1]), i, cred, mp.rate, end-mp.createdAt))
-			}
-			got := bank.GetBalance(ctx, l.payees[i].Addr, vDenom).Amount.Sub(payeeStart[i])
-			if !got.Equal(p.Withdrawn.Amount) {
-				bad("payee-bank-equals-withdrawn", trig, fmt.Sprintf("after %s: payee %d received %s, withdrawn field says %s", vOpsString(ops[:idx+1]), i, got, p.Withdrawn.Amount))
-			}
-		}
-		if !sumCred.Equal(acct.Transferred.Amount) {
-			bad("transferred-equals-credited", trig, fmt.Sprintf("after %s: transferred %s != sum credited %s", vOpsString(ops[:idx+1]), acct.Transferred.Amount, sumCred))
-		}
-		if acct.Transferred.Amount.GT(sdk.NewInt(model.deposits)) {
-			bad("never-more-than-deposited", trig, fmt.Sprintf("after %s: transferred %s > deposited %d", vOpsString(ops[:idx+1]), acct.Transferred.Amount, model.deposits))
-		}
-		ownerDelta := bank.GetBalance(ctx, l.owner.Addr, vDenom).Amount.Sub(ownerStart)
-		if !ownerDelta.Equal(sdk.NewInt(model.refunded - model.deposits)) {
-			bad("owner-bank", trig, fmt.Sprintf("after %s: owner's bank delta %s, expected %d", vOpsString(ops[:idx+1]), ownerDelta, model.refunded-model.deposits))
-		}
-		mod := bank.GetBalance(ctx, l.c.escrowAddr, vDenom).Amount.Sub(moduleStart)
-		if !mod.Equal(sumBal) {
-			bad("module-equals-recorded", trig, fmt.Sprintf("after %s: module holds %s, records sum to %s", vOpsString(ops[:idx+1]), mod, sumBal))
-		}
 	}
 	var sb strings.Builder
 	fmt.Fprintf(&sb, "a:%d/%d/%d", model.state, model.bal, model.trans)
